@@ -188,8 +188,23 @@ class KernelGroup(Group):
         return jobs, stats
 
 
+def compile_known(known):
+    """known-finding predicates travel as source text (picklable) and are compiled where they are used"""
+    out = []
+    for k in known:
+        if callable(k):
+            out.append(k)
+        elif k[0] == 'carve':
+            from ..decide import carve_fn
+            out.append(carve_fn(k[1]))
+        elif k[0] == 'native':
+            out.append(eval("lambda d: " + k[1], {}))
+    return out
+
+
 def gen_worker(arg):
     gname, task, known = arg
+    known = compile_known(known)
     g = GROUPS[gname]
     try:
         jobs, stats = g.generate(task, known) if known else g.generate(task)
